@@ -37,6 +37,14 @@ THEOREMS = [
     "Nix.C11.C11_open_keeps",
     "Nix.C11.C11_conservative_history",
     "Nix.C11.C11_canonical_id_accepted",
+    "Nix.C11.C11_init_shape",
+    "Nix.C11.C11_default_mode",
+    "Nix.C11.C11_unopenable_kept",
+    "Nix.C11.C11_overwrite_any",
+    "Nix.C11.C11_overwrite_dir",
+    "Nix.C11.C11_refused_unchanged",
+    "Nix.C11.C11_existing_kept",
+    "Nix.C11.C11_readonly_path",
 ]
 ASSUMPTIONS = [
     "nixio has no write guard of its own: that libhdf5 refuses every write through a handle opened ACC_RDONLY is "
@@ -158,9 +166,18 @@ def craft(path, disk):
     """make the path hold what the disk JSON says (content-free files only)"""
     import h5py
     import numpy as np
-    if os.path.exists(path):
-        os.remove(path)
+    _rm_path(path)
     if disk is None:
+        return
+    if "blob" in disk:
+        with open(path, "wb") as fd:
+            fd.write(blob_bytes(disk))
+        return
+    if "dir" in disk:
+        os.makedirs(path)
+        for name, hexbytes in disk.get("files", []):
+            with open(os.path.join(path, name), "wb") as fd:
+                fd.write(bytes.fromhex(hexbytes))
         return
     hd = disk["header"]
     with h5py.File(path, "w", track_order=True) as h:
@@ -178,6 +195,34 @@ def craft(path, disk):
             h.attrs["created_at"] = "20200101T000000"
         if disk["updated"]:
             h.attrs["updated_at"] = "20200101T000000"
+
+
+_BLOBS = {}     # sha256 -> bytes of the blobs generated in this run (too long for the case JSON)
+
+
+def blob_desc(data):
+    """the disk JSON of a file libhdf5 cannot open: the tag stands for the bytes"""
+    tag = hashlib.sha256(data).hexdigest()
+    _BLOBS[tag] = data
+    d = {"blob": tag, "empty": len(data) == 0}
+    if len(data) <= 64:
+        d["hex"] = data.hex()
+    return d
+
+
+def blob_bytes(disk):
+    if "hex" in disk:
+        return bytes.fromhex(disk["hex"])
+    if disk["blob"] in _BLOBS:
+        return _BLOBS[disk["blob"]]
+    raise ValueError("harness: bytes of blob %s unknown" % disk["blob"][:12])
+
+
+def dir_desc(files):
+    """the disk JSON of a (flat) directory; files = [[name, hex bytes]]"""
+    files = sorted(files)
+    tag = hashlib.sha256(repr([[n, hashlib.sha256(bytes.fromhex(h)).hexdigest()] for n, h in files]).encode()).hexdigest()
+    return {"dir": tag, "files": files}
 
 
 def _astr(g, name):
@@ -226,7 +271,18 @@ def dump(path, digest=False):
     import h5py
     if not os.path.exists(path):
         return None
-    with h5py.File(path, "r") as h:
+    if os.path.isdir(path):
+        files = []
+        for n in sorted(os.listdir(path)):
+            q = os.path.join(path, n)
+            files.append([n, open(q, "rb").read().hex() if os.path.isfile(q) else "00"])
+        return dir_desc(files)
+    try:
+        h = h5py.File(path, "r")
+    except OSError:
+        with open(path, "rb") as fd:
+            return blob_desc(fd.read())
+    with h:
         a = h.attrs
         fmt = _decode(a.get("format"))
         ver = a.get("version")
@@ -902,7 +958,7 @@ def run_hist(ctx, disk, events, path=None, digest=False):
                         outs.append({"ignored": True})
                         continue
                     try:
-                        f = nixio.File.open(path, ev[1])
+                        f = nixio.File.open(path) if ev[1] is None else nixio.File.open(path, ev[1])
                         ro = f._h5file.mode == "r"
                         outs.append({"opened": {"mode": f.mode, "writable": not ro}})
                     except Exception as e:
@@ -921,8 +977,7 @@ def run_hist(ctx, disk, events, path=None, digest=False):
                     if f is not None:
                         outs.append({"ignored": True})
                     else:
-                        if os.path.exists(path):
-                            os.remove(path)
+                        _rm_path(path)
                         outs.append({"closed": True})
                 elif f is None:
                     outs.append({"ignored": True})
@@ -957,11 +1012,7 @@ def run_hist(ctx, disk, events, path=None, digest=False):
                     pass
             gc.collect()
     res = {"ok": {"outs": outs, "disk": dump(path, digest)}}
-    try:
-        if os.path.exists(path):
-            os.remove(path)
-    except OSError:
-        pass
+    _rm_path(path)
     return res
 
 
@@ -1018,6 +1069,8 @@ def canon_out(o):
                     y[k] = sorted(kk for kk in v if kk != ["#h5"])
                 elif k == "content" and isinstance(v, list):
                     y[k] = sorted(v, key=lambda kv: kv[0])
+                elif k in ("hex", "files") and ("blob" in x or "dir" in x):
+                    continue
                 else:
                     y[k] = walk(v)
             return y
@@ -1161,20 +1214,52 @@ def gen_cases(ctx):
         for mode in ["r", "a", "w"]:
             one_open("file.incomplete", full_disk("nix", list(lib), VALID_ID, *flags), mode)
             one_open("file.incomplete", full_disk("nix", [lib[0], max(lib[1] - 1, 0), 0], VALID_ID, *flags), mode)
-    for mode in ["r", "a", "w", "x", ""]:
+    for mode in ["r", "a", "w", "x", "", None]:
         one_open("file.missing", None, mode)
+    # --- existing paths that are not HDF5 files: every condition x every mode (None = no mode argument) ----
+    for _rep in range(B(ctx, 1, 6)):
+        for disk in gen_unopenable(ctx):
+            for mode in ["r", "a", "w", "x", None]:
+                one_open("file.unopenable", disk, mode)
+    for disk in (full_disk(), full_disk("hdf"), full_disk("nix", [lib[0], max(lib[1] - 1, 0), 0])):
+        one_open("file.defaultmode", disk, None)
 
     # --- histories: several sessions with content ------------------------------------------
+    unop = gen_unopenable(ctx)
     for _ in range(B(ctx, 60, 800)):
-        add("history", gen_history(rng, lib, fid))
+        add("history", gen_history(rng, lib, fid, unop))
     return cases, dist
 
 
-def gen_history(rng, lib, fid):
+def gen_unopenable(ctx):
+    """disk JSONs of existing paths libhdf5 cannot open: one of every kind, contents seeded"""
+    rng = ctx.rng
+    out = []
+    tmp = ctx.tmpfile("gen-%d.nix" % rng.getrandbits(40))
+    build_small(tmp, "gen%d" % rng.getrandbits(24))
+    with open(tmp, "rb") as fd:
+        whole = fd.read()
+    os.remove(tmp)
+    size = len(whole)
+    for k in (8, 9, 512, size // 2, int(size * rng.random()) or 1, size - 1):
+        out.append(blob_desc(whole[:max(1, min(k, size - 1))]))              # truncated copies
+    out.append(blob_desc(b"\0" * 8 + whole[8:]))                               # wiped signature
+    out.append(blob_desc(b"recording notes, not a NIX file\n" * rng.randint(1, 30)))
+    out.append(blob_desc(bytes(rng.getrandbits(8) for _ in range(rng.choice([1, 7, 8, 100, 3000])))))
+    out.append(blob_desc(HDF5_SIG + b"\0" * rng.choice([0, 1, 88, 1000])))
+    out.append(blob_desc(b""))
+    out.append(dir_desc([]))
+    out.append(dir_desc([["inner.nix", b"inner".hex()], ["z", b"".hex()]]))
+    return out
+
+
+def gen_history(rng, lib, fid, unopenable=()):
     """sessions (open, calls, close)* on one path; the generator keeps a shadow of the keys so that puts have
     an existing parent and most deletes hit something"""
     start = rng.random()
-    if start < 0.3:
+    if unopenable and start < 0.12:
+        disk = rng.choice(unopenable)
+    elif start < 0.3:
         disk = None
     elif start < 0.8:
         disk = full_disk()
@@ -1183,14 +1268,20 @@ def gen_history(rng, lib, fid):
         disk = full_disk("nix", v, rng.choice([VALID_ID, None]))
     shadow = set()
     exists = disk is not None
-    usable = exists and disk["header"]["version"] == list(lib) and disk["header"]["id"] == VALID_ID
-    readable = exists and disk["header"]["version"][0] == lib[0] and disk["header"]["version"][1] <= lib[1] and \
+    hdf = exists and "header" in disk
+    usable = hdf and disk["header"]["version"] == list(lib) and disk["header"]["id"] == VALID_ID
+    readable = hdf and disk["header"]["version"][0] == lib[0] and disk["header"]["version"][1] <= lib[1] and \
         (disk["header"]["id"] == VALID_ID or tuple(disk["header"]["version"]) < (1, 2, 0))
+    isdir = exists and "dir" in disk
     evs = []
     for _s in range(rng.randint(1, 5)):
-        mode = rng.choice(["r", "a", "w", "a", "r"])
+        mode = rng.choice(["r", "a", "w", "a", "r", None])
         evs.append(["open", mode, fid()])
-        if mode == "w" or (mode == "a" and not exists):
+        if mode is None:
+            mode = "a"
+        if isdir:
+            is_open, writable = False, False
+        elif mode == "w" or (mode == "a" and not exists):
             shadow = set()
             exists = usable = readable = True
             is_open, writable = True, True
@@ -1225,7 +1316,7 @@ def gen_history(rng, lib, fid):
         if rng.random() < 0.08:
             evs.append(["remove"])
             shadow = set()
-            exists = usable = readable = False
+            exists = usable = readable = isdir = False
     return ["hist", disk, evs]
 
 
